@@ -623,8 +623,10 @@ pub fn explore(s: &mut Sink, cfg: &Cfg, report: bool) -> (usize, bool) {
     let mut executions = 0usize;
     while let Some(prefix) = todo.pop() {
         executions += 1;
-        if executions > 20_000 {
-            s.violation(&format!("harness/sched/{class}"), "more than 20000 executions for one configuration".into(), json!({"kind":"none"}));
+        if executions > 200_000 || s.expired() {
+            // a subject whose adds retry (compare-exchange loops) has far more schedules: the part
+            // explored so far decides, the evidence says that this configuration was cut
+            s.cut(&format!("schedules of {class} (cut after {executions} executions)"));
             break;
         }
         let ex = execute(cfg, &prefix);
